@@ -388,6 +388,9 @@ def search_witnesses(ctx: Ctx) -> SearchResult:
 			got = sorted({f.key for f in res.findings[before:]})
 			name = w.get('regression_of') or w.get('expect_key')
 			if w.get('expect') == 'pass':
+				# the listed known findings a regression program cannot avoid (an explicit super().__init__() call) are not its verdict
+				from harness.c03_search import UNDERSTOOD
+				got = [k for k in got if k not in UNDERSTOOD]
 				res.histogram[f"regression:{name}:{'pass' if not got else 'FAIL ' + ','.join(got)}"] = 1
 			else:
 				res.histogram[f"known:{name}:{'reproduced' if name in got else 'NOT-reproduced'}"] = 1
@@ -529,6 +532,7 @@ STATEMENTS: dict[str, str] = {
 	'sound_attr': 'r.a on an instance of a user class (instance variable, class variable, property) through the single-inheritance chain: inferred = declared type of the first member on the chain, and it denotes the value CPython reads (instance dict, then class); method calls and constructors are part of sound_conf',
 	'var_at / class_scope_rule': 'the Var handler over the environment induced by C08\'s symbol-table model (find_by_symbolic, allow_scope) answers the type of the symbol found; on the nested-class program a bare name in the nested class body / a method is the module-level symbol, directly in the class body the class variable',
 	'nullable_order_irrelevant / nullable_order_handlers': 'unwrapping an optional (_actualize_nullable) does not depend on the side None is written on: T | None and None | T both unwrap to T, so subscript, slice, attribute access and iteration answer the same for both spellings',
+	'member_depth_first': 'member lookup through several base classes (__resolve_raw_recursive) is depth-first, left to right: what the first base reaches, itself or through its own bases, wins over anything a later base declares; only when its whole ancestry has nothing the next base is searched. For tree-shaped hierarchies (no diamonds; what the generators build) this is the order of the MRO of CPython',
 	'lambda_param_callable': 'resolve_lambda_param on the model: for C = Callable[[A...], R] the i-th lambda parameter is A_i when the lambda is assigned under the annotation C, returned from a function declared -> C, or passed where the parameter of the function / closure / method / constructor is C, C | None or None | C',
 	'sound_lambda_param': 'applied to values of the types its parameters were given, the lambda body runs in an environment conforming to the one it is typed in: the inferred body type denotes the returned value, and the lambda is typed Callable<parameter types..., body type> (on_lambda)',
 	'sound_lambda_immediate': '(lambda x...: body)(args...) without any assumption on a callee: parameters typed by the inferred argument types, argument values conform to them, the body type denotes the value of the call',
@@ -546,10 +550,10 @@ PARTIAL = {
 		'literals, variables, unary/binary operators, comparisons, and/or/not, ternary, subscripts, slices, groups, list/dict comprehensions: soundness and totality on the model, by induction on expressions; '
 		'session independence for all expressions; template substitution of list.pop for all element types',
 	'correspondence_only': 'that the model IS the code: ProceduralResolver handlers, try_operation, TemplateManipulator path matching (stream infer, shared sessions = history), member lookup through the inheritance chain, on_relay, constructors, IteratorTrait, declaration typing of whole function bodies (stream infer-programs); CPython semantics of the core (stream pytype)',
-	'search_only': 'that the class-scope visibility rule equals CPython\'s scoping (LEGB) — the Lean side states the rule on C08\'s Scope model and checks it on the nested-class program, the equality with CPython is exhibited by the recorder search (shadowing through nested classes); Enum, user generic classes and functions (the template port is proved for stub methods; the position rule of 68f934e is checked on examples), nested classes, imports, resolve_unknown laziness, while/try/with, augmented and attribute assignments',
+	'search_only': 'that the class-scope visibility rule equals CPython\'s scoping (LEGB) — the Lean side states the rule on C08\'s Scope model and checks it on the nested-class program, the equality with CPython is exhibited by the recorder search (shadowing through nested classes); diamond-shaped hierarchies (chainOf is the depth-first walk of the code, not C3), Enum, user generic classes and functions incl. attributes typed by a type variable read on descendants (generic_chain_block; two known findings for METHODS there) (the template port is proved for stub methods; the position rule of 68f934e is checked on examples), nested classes, imports, resolve_unknown laziness, while/try/with, augmented and attribute assignments',
 	'assumed_of_callees (sound_lambda_param)': 'a callee applies a callback declared Callable[[A...], R] to values of the types A (hypothesis ArgsConf; the typing obligation of the callee body, exhibited by the recorder search which observes the parameters inside lambda bodies); discharged for immediate calls',
 	'assumed_of_user_code (WorldConf)': 'constructor / method / property / class-variable / __next__ results conform to their DECLARED types (each method body\'s own typing obligation; method bodies are typed statement by statement by sound_decl / sound_conf but not executed by the model)',
-	'still_false_on_the_code (known findings)': 'list-literal-class-dedup, dict-get-missing-key, abs-of-bool, list-of-dict-items, boolop-nonbool-operands, tuple-slice-nonliteral-bounds, ternary-union-of-containers (each with a proved counterexample outside Core), min-max-mixed-numeric, union-of-subclasses-attribute, explicit-init-call (floats / user classes / lambdas are outside the model: corpus witness only); every one is generated at a low rate and replayed from corpus/C03 first',
+	'still_false_on_the_code (known findings)': 'list-literal-class-dedup, dict-get-missing-key, abs-of-bool, list-of-dict-items, boolop-nonbool-operands, tuple-slice-nonliteral-bounds, ternary-union-of-containers (each with a proved counterexample outside Core), min-max-mixed-numeric, union-of-subclasses-attribute, explicit-init-call, generic-method-on-indirect-subclass, generic-method-nested-type-argument (floats / user classes / lambdas are outside the model: corpus witness only); every one is generated at a low rate and replayed from corpus/C03 first',
 }
 
 ASSUMPTIONS = [
